@@ -66,7 +66,11 @@ func (t *Time) MarshalJSON() ([]byte, error) {
 // UnmarshalJSON implements the json.Unmarshaler interface. The time must be a
 // quoted string in the "15:04:05.999999999" format.
 func (t *Time) UnmarshalJSON(data []byte) error {
-	tim, err := time.Parse(timeFormat, string(data[1:len(data)-1]))
+	str, err := unquoteJSON(data)
+	if err != nil {
+		return err
+	}
+	tim, err := time.Parse(timeFormat, string(str))
 	if err != nil {
 		return fmt.Errorf(
 			"%w: Cannot parse %s as %q",
